@@ -314,6 +314,41 @@ def rule_tagsize(ctx):
         ctx.ok(rid, "implicit-size-by-name", "21 candidate names: 20 exactly for the seven fixed-size tags, previous size otherwise", nontrivial=True, fn=f)
 
 
+def rule_predshift(ctx):
+    """predicted runs: the part of the prediction added to byte j of an element depends on the element width only"""
+    from ..symexpr import Sym, show
+    from ..facts import callee
+    rid = "R-ICC-PREDSHIFT"
+    ctx.rule(rid, "decode_icc, command 4 (predicted run): byte j of an element receives bits 8*(width-1-j).. of the predicted value, where "
+                  "width is the element width coded in the command flags (flags & 3) + 1 - also for a trailing partial element, whose "
+                  "bytes are the most significant ones.  The shift amount, in the symbolic normal form of the MIR expression, must be "
+                  "derived from `flags & 3` and must not depend on the length of any slice (number of bytes present)")
+    f = ctx.prog.fn(DEC)
+    if f is None:
+        ctx.anchor_missing(rid, DEC)
+        return
+    ctx.seen(f)
+    sym = Sym(f)
+    sites = []
+    for b, t in f.calls():
+        c = callee(t)
+        if c and c["fn"].endswith("Shr::shr") and "Wrapping<u32>" in str(c.get("res", "")) and len(t[2]) == 2:
+            sites.append((b, t, sorted(show(x) for x in sym.operand(t[2][1]))))
+    if not sites:
+        ctx.anchor_missing(rid, "the `prediction >> amount` of the predicted-run loop in decode_icc")
+        return
+    for b, t, forms in sites:
+        txt = " | ".join(forms)
+        if "len(" in txt:
+            ctx.bad(rid, "shift-depends-on-length", "the shift applied to the predicted value depends on a slice length (%s): a trailing partial "
+                    "element of a predicted run gets the low-order bytes of the prediction, not the high-order ones" % txt[:160], fn=f, pos=t[-2])
+        elif "& 3" not in txt:
+            ctx.bad(rid, "shift-not-from-width", "the shift applied to the predicted value is not derived from the element width of the command "
+                    "(flags & 3): %s" % txt[:160], fn=f, pos=t[-2])
+        else:
+            ctx.ok(rid, "shift-from-width", "amount = %s" % txt[:120], nontrivial=True, fn=f)
+
+
 def main(pid, tier, repo=None):
     ctx = Ctx(pid, tier, configs=("workspace",), repo=repo)
     rid = "R-ICC-REJECT"
@@ -346,6 +381,7 @@ def main(pid, tier, repo=None):
     from . import specconst
     specconst.run(ctx, pid)
     rule_tagsize(ctx)
+    rule_predshift(ctx)
     # no unwrap/expect/index panic on the error path: decode_icc returns Result and converts slice errors
     ctx.not_decided("byte equality of the decoded profile with the embedded one for every encoding (value-level round trip); the predictor "
                     "arithmetic and the shuffle permutations")
